@@ -43,6 +43,7 @@ type Unit struct {
 	Warnings    []string
 	Assumptions []string
 	Unsupported []string
+	UsedContracts map[string]bool
 	Blocks      int
 	Instrs      int
 }
@@ -227,7 +228,9 @@ func (g *vcgen) obligeAt(class, detail, site, goal, src string) {
 	}
 	ob.Parts = append(ob.Parts, Part{Prefix: len(g.u.Items), Goal: fmt.Sprintf("(=> %s %s)", g.pc, goal), Site: site,
 		Witness: append([]Wit(nil), g.witness...)})
-	g.assume(goal)
+	if goal != "false" || class == "safe/unreachable" {
+		g.assume(goal)
+	}
 }
 
 // cover records a vacuity guard: pc ∧ cond must be satisfiable.
